@@ -1,0 +1,157 @@
+//go:build verif
+
+package io
+
+// Contracts for the verifier in /verif (comment-only file; no declarations).
+//
+// C08: selection arithmetic of the HDF5 array I/O. A per-dimension selection
+// [start, stop, step] of a dimension of extent size denotes the indices
+//   start, start+step, start+2*step, ...  below  min(stop, size)
+// (exactly the elements of the corresponding in-memory slice).
+
+//@ specu selcount(start int, stop int, step int, size int) int = div(max(0, min(size, stop) - min(size, start)) + step - 1, step)
+
+// selcount is the number of selected indices: start + k*step lies below min(stop, size) exactly for k < selcount
+// (induction variable unused)
+//@ induct [C08.lemma-selcount-exact] (start int, stop int, step int, size int) z : implies(step >= 1 && start >= 0 && size >= 0, selcount(start, stop, step, size) >= 0 && forall(k, 0, size + 1, iff(start + k*step < min(size, stop), k < selcount(start, stop, step, size))))
+
+//@ func sliceSize(slice, size) returns (r)
+//@   safety C08
+//@   requires len(slice) >= 3 && slice[2] >= 1 && slice[0] >= 0 && size >= 0
+//@   assigns nothing
+//@   ensures [C08.selection-count] r == selcount(slice[0], slice[1], slice[2], size)
+//@   ensures [C08.selection-count-exact] r >= 0 && forall(k, 0, size + 1, iff(slice[0] + k*slice[2] < min(size, slice[1]), k < r))
+
+//@ func makeHyperslab(slice, dims) returns (offset, stride, count, block)
+//@   safety C08
+//@   fresh offset, stride, count, block
+//@   requires len(dims) >= len(slice)
+//@   requires forall(i, 0, len(slice), dims[i] >= 0 && implies(slice[i] != nil, len(slice[i]) >= 3 && slice[i][2] >= 1 && slice[i][0] >= 0))
+//@   assigns nothing
+//@   ensures [C08.hyperslab-shape] len(offset) == len(slice) && len(stride) == len(slice) && len(count) == len(slice) && len(block) == len(slice)
+//@   ensures [C08.hyperslab-whole-dimension] forall(i, 0, len(slice), implies(slice[i] == nil, offset[i] == 0 && stride[i] == 1 && count[i] == dims[i] && block[i] == 1))
+//@   ensures [C08.hyperslab-selection] forall(i, 0, len(slice), implies(slice[i] != nil, offset[i] == slice[i][0] && stride[i] == slice[i][2] && block[i] == 1 && count[i] == selcount(slice[i][0], slice[i][1], slice[i][2], dims[i])))
+//@   loop 0 invariant [C08.hyperslab-loop] -1 <= rangeindex && rangeindex < len(slice) && len(offset) == len(slice) && len(stride) == len(slice) && len(count) == len(slice) && len(block) == len(slice)
+//@   loop 0 invariant [C08.hyperslab-loop] forall(i, 0, rangeindex + 1, implies(slice[i] == nil, offset[i] == 0 && stride[i] == 1 && count[i] == dims[i] && block[i] == 1))
+//@   loop 0 invariant [C08.hyperslab-loop] forall(i, 0, rangeindex + 1, implies(slice[i] != nil, offset[i] == slice[i][0] && stride[i] == slice[i][2] && block[i] == 1 && count[i] == selcount(slice[i][0], slice[i][1], slice[i][2], dims[i])))
+
+// ---- C08: lock discipline. ghost.hdf5lock models the package lock: 0 free, 1 shared (readers), 2 exclusive (writers).
+// Every call into gonum.org/v1/hdf5 generates the obligation ghost.hdf5lock >= 1 (== 2 for Create*/Write*).
+
+//@ func rLockHDF5(fn)
+//@   trusted "wrapper of sync.RWMutex.RLock on the package lock"
+//@   requires ghost.hdf5lock == 0
+//@   assigns ghost.hdf5lock
+//@   ensures ghost.hdf5lock == 1
+//@ func rUnlockHDF5(fn)
+//@   trusted "wrapper of sync.RWMutex.RUnlock on the package lock"
+//@   requires ghost.hdf5lock == 1
+//@   assigns ghost.hdf5lock
+//@   ensures ghost.hdf5lock == 0
+//@ func lockHDF5(fn)
+//@   trusted "wrapper of sync.RWMutex.Lock on the package lock"
+//@   requires ghost.hdf5lock == 0
+//@   assigns ghost.hdf5lock
+//@   ensures ghost.hdf5lock == 2
+//@ func unlockHDF5(fn)
+//@   trusted "wrapper of sync.RWMutex.Unlock on the package lock"
+//@   requires ghost.hdf5lock == 2
+//@   assigns ghost.hdf5lock
+//@   ensures ghost.hdf5lock == 0
+
+//@ types {T} = ArrayType, Float64, Float32, Int32, Uint32, Int64, Uint64, Int, Uint
+
+//@ func (H5Ref{T}).Load(h) returns (r, err)
+//@   ndmodel interface
+//@   requires ghost.hdf5lock == 0
+//@   assigns ghost.hdf5lock
+//@   ensures [C08.lock-released] ghost.hdf5lock == 0
+
+//@ func (H5Ref{T}).loadSubset(h, ds) returns (r, err)
+//@   ndmodel interface
+//@   requires [C08.lock-precondition] ghost.hdf5lock >= 1
+//@   requires h.Slice != nil && forall(i, 0, len(h.Slice), implies(h.Slice[i] != nil, len(h.Slice[i]) >= 3 && h.Slice[i][2] >= 1 && h.Slice[i][0] >= 0))
+//@   assigns nothing
+//@   callsite SelectHyperslab [C08.load-selection] arg1 == offset && arg2 == stride && arg3 == count && arg4 == block
+//@   callsite CreateSimpleDataspace [C08.load-memory-shape] implies(len(h.Slice) == len(shape), len(arg0) == len(count) && forall(i, 0, len(count), arg0[i] == count[i]))
+//@   callsite NewArray{T} [C08.load-result-shape] implies(len(h.Slice) == len(shape), len(arg0) == len(count) && forall(i, 0, len(count), arg0[i] == count[i]))
+//@   callsite ReadSubset [C08.load-reads-selection] arg2 == memSpace && arg3 == filespace
+//@   loop 0 invariant [C08.load-shape-loop] -1 <= rangeindex && rangeindex < len(shape) && len(count) == len(h.Slice)
+//@   loop 0 invariant [C08.load-shape-loop] implies(len(h.Slice) == len(shape), forall(d, 0, rangeindex + 1, shape[d] == count[d]))
+//@   loop 0 invariant [C08.load-shape-loop] implies(len(h.Slice) == len(shape), forall(d, rangeindex + 1, len(shape), shape[d] >= 0 && implies(h.Slice[d] == nil, count[d] == shape[d]) && implies(h.Slice[d] != nil, count[d] == selcount(h.Slice[d][0], h.Slice[d][1], h.Slice[d][2], shape[d]))))
+
+//@ func (H5Ref{T}).Write(h, data) returns (err)
+//@   ndmodel interface
+//@   requires ghost.hdf5lock == 0 && data != nil
+//@   callsite openOrCreateDataset [C08.write-dataset-shape] len(arg2) == data.rank && forall(i, 0, data.rank, arg2[i] == data.dim(i))
+//@   assigns ghost.hdf5lock
+//@   ensures [C08.lock-released] ghost.hdf5lock == 0
+
+//@ func (H5Ref{T}).Create(h, shape, fillValue, compress) returns (err)
+//@   ndmodel interface
+//@   requires ghost.hdf5lock == 0
+//@   assigns ghost.hdf5lock
+//@   ensures [C08.lock-released] ghost.hdf5lock == 0
+
+//@ func (H5Ref{T}).WriteSlice(h, data, loc) returns (err)
+//@   ndmodel interface
+//@   requires ghost.hdf5lock == 0 && data != nil
+//@   callsite SelectHyperslab [C08.writeslice-block] len(arg1) == len(loc) && forall(i, 0, len(loc), arg1[i] == loc[i] && arg2[i] == 1 && arg3[i] == 1) && len(arg4) == data.rank && forall(i, 0, data.rank, arg4[i] == data.dim(i))
+//@   callsite CreateSimpleDataspace [C08.writeslice-memory-shape] len(arg0) == data.rank && forall(i, 0, data.rank, arg0[i] == data.dim(i))
+//@   callsite WriteSubset [C08.writeslice-writes-block] arg2 == memSpace && arg3 == filespace
+//@   assigns ghost.hdf5lock
+//@   ensures [C08.lock-released] ghost.hdf5lock == 0
+
+//@ func (H5Ref{T}).LoadText(h) returns (r, err)
+//@   ndmodel interface
+//@   requires ghost.hdf5lock == 0
+//@   assigns ghost.hdf5lock
+//@   ensures [C08.lock-released] ghost.hdf5lock == 0
+
+//@ func (H5Ref{T}).GetDatasets(h) returns (r, err)
+//@   ndmodel interface
+//@   requires ghost.hdf5lock == 0
+//@   assigns ghost.hdf5lock
+//@   ensures [C08.lock-released] ghost.hdf5lock == 0
+//@   loop 0 invariant 0 <= i
+
+//@ func (H5Ref{T}).GetGroups(h) returns (r, err)
+//@   ndmodel interface
+//@   requires ghost.hdf5lock == 0
+//@   assigns ghost.hdf5lock
+//@   ensures [C08.lock-released] ghost.hdf5lock == 0
+//@   loop 0 invariant 0 <= i
+
+//@ func (H5Ref{T}).Shape(h) returns (r, err)
+//@   ndmodel interface
+//@   requires ghost.hdf5lock == 0
+//@   assigns ghost.hdf5lock
+//@   ensures [C08.lock-released] ghost.hdf5lock == 0
+
+//@ func (H5Ref{T}).Exists(h) returns (r)
+//@   ndmodel interface
+//@   requires ghost.hdf5lock == 0
+//@   assigns ghost.hdf5lock
+//@   ensures [C08.lock-released] ghost.hdf5lock == 0
+//@   loop 0 invariant -1 <= rangeindex && ghost.hdf5lock == 0
+
+//@ func openWriteOrCreate(fn, createIfNotExist) returns (f, err)
+//@   requires [C08.lock-precondition] ghost.hdf5lock == 2
+//@   assigns nothing
+
+//@ func shapesMatch(ds, shape) returns (r)
+//@   requires [C08.lock-precondition] ghost.hdf5lock >= 1
+//@   assigns nothing
+
+//@ func openOrCreateDataset(f, path, shape, exampleValue, compress) returns (ds, err)
+//@   requires [C08.lock-precondition] ghost.hdf5lock == 2
+//@   assigns nothing
+
+//@ func createDataset(g, path, shape, exampleValue, compress) returns (ds, err)
+//@   requires [C08.lock-precondition] ghost.hdf5lock == 2
+//@   assigns nothing
+//@   callsite CreateSimpleDataspace [C08.create-shape] len(arg0) == len(shape) && forall(i, 0, len(shape), arg0[i] == shape[i])
+
+//@ func findInSlice(strings, target) returns (r)
+//@   assigns nothing
+//@   loop 0 invariant -1 <= rangeindex
